@@ -3,6 +3,7 @@ package main
 import (
 	"bufio"
 	"encoding/json"
+	"errors"
 	"fmt"
 	"os"
 	"strconv"
@@ -30,6 +31,18 @@ func main() { hx.Main("C15", run) }
 
 type customEv struct{ N int }
 
+// errAnswer is the scripted answer "the handler returns a non-nil error" (script token 10).
+type errAnswer struct{}
+
+var errScripted = errors.New("scripted handler error")
+
+func answer(c vxfw.Command) (vxfw.Command, error) {
+	if _, is := c.(errAnswer); is {
+		return nil, errScripted
+	}
+	return c, nil
+}
+
 type plainW struct {
 	id int
 	ss *sess
@@ -45,7 +58,7 @@ func (w *plainW) HandleEvent(ev vaxis.Event, ph vxfw.EventPhase) (vxfw.Command, 
 	case vxfw.BubblePhase:
 		p = "b"
 	}
-	return w.ss.call(w.id, ev, p), nil
+	return answer(w.ss.call(w.id, ev, p))
 }
 
 func (w *plainW) Draw(vxfw.DrawContext) (vxfw.Surface, error) { return vxfw.Surface{}, nil }
@@ -53,7 +66,7 @@ func (w *plainW) Draw(vxfw.DrawContext) (vxfw.Surface, error) { return vxfw.Surf
 type capW struct{ plainW }
 
 func (w *capW) CaptureEvent(ev vaxis.Event) (vxfw.Command, error) {
-	return w.ss.call(w.id, ev, "c"), nil
+	return answer(w.ss.call(w.id, ev, "c"))
 }
 
 func evCode(ev vaxis.Event) string {
@@ -90,6 +103,7 @@ type sess struct {
 	script []vxfw.Command
 	calls  int
 	log    []string
+	err    bool // the entry point called by the last op returned an error
 }
 
 func (s *sess) call(id int, ev vaxis.Event, ph string) vxfw.Command {
@@ -267,6 +281,11 @@ func (s *sess) parseCmd(c *cur, depth int) vxfw.Command {
 			out = append(out, s.parseCmd(c, depth+1))
 		}
 		return out
+	case 10:
+		// only as a whole script answer: the handler returns (nil, error)
+		if depth == 0 {
+			return errAnswer{}
+		}
 	}
 	panic(badOp{})
 }
@@ -355,8 +374,12 @@ func (s *sess) snapshot() string {
 	if vxfw.VerifHasMouse(s.vs) {
 		m = "1"
 	}
-	return fmt.Sprintf("%s;f=%s;p=%s;x=%s;h=%s;m=%s;t=%s", lg, s.wid(vxfw.VerifAppFocused(s.app)), p, x,
-		hitsString(s, vxfw.VerifHits(s.vs)), m, titles(s.fc.Take()))
+	e := ""
+	if s.err {
+		e = ";e=1"
+	}
+	return fmt.Sprintf("%s;f=%s;p=%s;x=%s;h=%s;m=%s;t=%s%s", lg, s.wid(vxfw.VerifAppFocused(s.app)), p, x,
+		hitsString(s, vxfw.VerifHits(s.vs)), m, titles(s.fc.Take()), e)
 }
 
 // exec runs one op (already split into fields). ok=false means the op could not be parsed (or
@@ -434,7 +457,7 @@ func (it *interp) parse(op []string) func() string {
 	}
 	// begin resets the per-op call counter, log and script
 	begin := func(script []vxfw.Command) {
-		s.script, s.calls, s.log = script, 0, nil
+		s.script, s.calls, s.log, s.err = script, 0, nil, false
 	}
 	switch kind {
 	case "ev":
@@ -453,7 +476,7 @@ func (it *interp) parse(op []string) func() string {
 		c.end()
 		return func() string {
 			begin(sc)
-			_ = vxfw.VerifDispatchKey(s.vs, ev)
+			s.err = vxfw.VerifDispatchKey(s.vs, ev) != nil
 			return s.snapshot()
 		}
 	case "upd":
@@ -493,7 +516,7 @@ func (it *interp) parse(op []string) func() string {
 		c.end()
 		return func() string {
 			begin(sc)
-			_ = vxfw.VerifMouse(s.vs, vaxis.Mouse{Col: col, Row: row})
+			s.err = vxfw.VerifMouse(s.vs, vaxis.Mouse{Col: col, Row: row}) != nil
 			return s.snapshot()
 		}
 	case "mupd":
@@ -503,7 +526,7 @@ func (it *interp) parse(op []string) func() string {
 		c.end()
 		return func() string {
 			begin(sc)
-			_ = vxfw.VerifMouseUpdate(s.vs, sf)
+			s.err = vxfw.VerifMouseUpdate(s.vs, sf) != nil
 			return s.snapshot()
 		}
 	case "mexit":
@@ -512,7 +535,7 @@ func (it *interp) parse(op []string) func() string {
 		c.end()
 		return func() string {
 			begin(sc)
-			_ = vxfw.VerifMouseExit(s.vs, clear == 1)
+			s.err = vxfw.VerifMouseExit(s.vs, clear == 1) != nil
 			return s.snapshot()
 		}
 	case "tfin":
@@ -520,7 +543,7 @@ func (it *interp) parse(op []string) func() string {
 		c.end()
 		return func() string {
 			begin(sc)
-			_ = vxfw.VerifTerminalFocusIn(s.vs)
+			s.err = vxfw.VerifTerminalFocusIn(s.vs) != nil
 			return s.snapshot()
 		}
 	case "cmd":
@@ -626,6 +649,8 @@ type caseGen struct {
 	frame    *node // last setframe tree
 	hasFocus bool  // set by genCmd when a focus command was produced
 	hasCons  bool
+	errs     bool // scripts of this case may contain error answers (token 10)
+	hasErr   bool
 }
 
 func (g *caseGen) genTree() *node {
@@ -769,6 +794,12 @@ func (g *caseGen) genScript() string {
 	m := g.rng.Range(0, 6)
 	parts := []string{"S", strconv.Itoa(m)}
 	for i := 0; i < m; i++ {
+		if g.errs && g.rng.Chance(1, 8) {
+			// this handler call returns an error
+			parts = append(parts, "10")
+			g.hasErr = true
+			continue
+		}
 		parts = append(parts, g.genCmd(0, g.clean))
 	}
 	return strings.Join(parts, " ")
@@ -786,8 +817,12 @@ func (g *caseGen) genPoint() (int, int) {
 	return rng.Intn(w), rng.Intn(h)
 }
 
-func genCase(r *hx.Run, rng *gen.Rng, emit func(op string)) {
+func genCase(r *hx.Run, rng *gen.Rng, emit func(op string), errored func() bool) {
 	g := &caseGen{rng: rng}
+	g.errs = rng.Chance(1, 5) // cases in which handlers may return errors
+	if g.errs {
+		r.Count("case-with-error-answers")
+	}
 	g.n = rng.Range(1, 12)
 	g.root = rng.Intn(g.n)
 	g.clean = rng.Chance(1, 4)
@@ -823,8 +858,11 @@ func genCase(r *hx.Run, rng *gen.Rng, emit func(op string)) {
 		}
 	}
 	script := func() string {
-		g.hasFocus, g.hasCons = false, false
+		g.hasFocus, g.hasCons, g.hasErr = false, false, false
 		s := g.genScript()
+		if g.hasErr {
+			r.Count("script-has-error")
+		}
 		if g.hasFocus {
 			r.Count("script-has-focus")
 		}
@@ -856,6 +894,11 @@ func genCase(r *hx.Run, rng *gen.Rng, emit func(op string)) {
 		nops--
 	}
 	for k := 0; k < nops; k++ {
+		if errored() {
+			// the entry point returned an error: App.Run would have returned it; the case ends
+			r.Count("case-ended-by-returned-error")
+			return
+		}
 		p := rng.Intn(100)
 		followUpd := false
 		switch {
@@ -1048,7 +1091,7 @@ func run(r *hx.Run) error {
 	}
 	for i := 0; i < ncases; i++ {
 		startCase(strconv.Itoa(i))
-		genCase(r, rng.Fork(uint64(i)), emit)
+		genCase(r, rng.Fork(uint64(i)), emit, func() bool { return it.s != nil && it.s.err })
 	}
 	return nil
 }
